@@ -570,3 +570,16 @@ Theorem C03_stdish_migration_wrong_allocator_refuted :
                    [(1, (1, 16)); (0, (1, 16))] [] 2 [])) = true.
 Proof. exact Effects6Proofs.migrate_wrong_allocator_refuted. Qed.
 Print Assumptions C03_stdish_migration_wrong_allocator_refuted.
+
+(* stdish::vector(vector&&, allocator) with UNEQUAL allocators (contiguous migration) followed by both destructors: the target's
+   storage is allocated and returned through B, the source's returned through A, all n source elements and all n target
+   elements are destroyed exactly once; every schedule *)
+Theorem C03_stdish_vector_migration_unequal_allocators_no_leak :
+  forall mgrA mgrB isz sb n s f g nb,
+    st2 s f g nb -> g sb = Some (mgrA, Z.of_nat n * isz) -> sb < nb -> g nb = None ->
+    (forall k, 0 <= k < Z.of_nat n -> f (sb, 0 + k) = true) -> (forall l, fst l = nb -> f l = false) ->
+    post (migrate_block_then_destroy mgrA mgrB isz sb n) s
+         (fun _ s' => exists nb', st2 s' (fun l => negb (inrng sb 0 n l) && f l) (fun x => if Z.eqb sb x then None else g x) nb')
+         (fun s' => exists nb', st2 s' (fun l => negb (inrng sb 0 n l) && f l) (fun x => if Z.eqb sb x then None else g x) nb').
+Proof. exact Effects6Proofs.migrate_block_then_destroy_post. Qed.
+Print Assumptions C03_stdish_vector_migration_unequal_allocators_no_leak.
